@@ -752,6 +752,9 @@ func corpusCV(cfg *config) []string {
 		mk("conv", "-", "def", "Time,UTC Time,GPS_Update,OBD_Update,Engine Speed (RPM) *OBD\n0.000,100.000,1,0,1000\n# Lap 0: 00:00:01.000\n1.000,101.000,1,0,1000\n# Lap 1: 00:00:01.000\n2.000,102.000,1,0,1000\n"),
 		// interpolation between two fresh readings
 		mk("conv", "-", "def", "Time,UTC Time,GPS_Update,OBD_Update,Engine Speed (RPM) *OBD\n0.000,100.000,1,1,1000\n# Lap 0: 00:00:01.000\n1.000,101.000,1,0,1000\n1.500,101.500,1,0,1000\n# Lap 1: 00:00:01.000\n2.000,102.000,1,1,5000\n"),
+		// a log with OBD channels, but none of rpm / speed / throttle / coolant: intake temperature and manifold pressure only
+		mk("conv", "-", "def", "Time,UTC Time,Lap,GPS_Update,Latitude,Longitude,OBD_Update,Intake Air Temp (C) *OBD,Intake Manifold Pressure (kPa) *OBD\n"+
+			"0.000,100.000,0,1,0.0000000,0.0000000,1,30.1,101.000\n# Lap 0: 00:00:01.000\n1.000,101.000,1,1,0.0000000,0.0000000,1,32.6,150.504\n2.000,102.000,1,1,0.0000000,0.0000000,1,33.4,149.250\n# Lap 1: 00:00:02.000\n3.000,103.000,2,1,0.0000000,0.0000000,1,31.0,120.000\n"),
 		// recorded finding: a fix on the 45th parallel to the last printed digit (the geodesic library)
 		"dist 44.9999000 7.0000000 45.0000000 7.0001000",
 		"dist 45.0000000 7.0000000 45.0000000 7.0001000",
